@@ -85,6 +85,38 @@ func (w *c17World) fail(kind, format string, a ...any) {
 	w.c.Fail(kind, format, a...)
 }
 
+// kill: the process dies without closing anything (no flush); the next process runs the start-up recovery.
+func (w *c17World) kill() bool {
+	w.c.Logf("KILL (process dies without closing its session, InitStorage, new session)")
+	if w.sess != nil && w.sess.RelationService != nil {
+		func() {
+			defer func() { recover() }()
+			storage.VerifAbandon(w.sess.RelationService)
+		}()
+	}
+	for _, s := range storage.VerifStores() {
+		if s.Flusher && !s.Dead {
+			func() {
+				defer func() { recover() }()
+				s.AbandonStore()
+			}()
+		}
+	}
+	storage.VerifForgetStores()
+	storage.VerifSetFuel(worldFuel * 4)
+	err := guard(storage.InitStorage)
+	storage.VerifSetFuel(-1)
+	storage.VerifForgetStores()
+	if err != nil {
+		w.fail("recovery-failed", "InitStorage after the process was killed: %v", err)
+		return false
+	}
+	w.sess = &Session{}
+	w.cur = ""
+	w.restarts++
+	return true
+}
+
 func (w *c17World) restart() bool {
 	w.c.Logf("RESTART (session closed, process exits, InitStorage, new session)")
 	w.killAll()
@@ -452,6 +484,7 @@ func (w *c17World) events() []c17Event {
 		}})
 	}
 	ev = append(ev, c17Event{"RESTART", func(w *c17World) bool { return w.restart() }})
+	ev = append(ev, c17Event{"KILL", func(w *c17World) bool { return w.kill() }})
 	return ev
 }
 
@@ -464,7 +497,7 @@ func runC17(env *lib.Env, rep *lib.Report) {
 	rep.Bounds["depth"] = fmt.Sprintf("quick: 4 from the one-row seed and from the empty directory, 3 from the flushed 12-row seed, 2 from the seed with a long log (130 single-row statements); thorough: 6 / 5 / 4 / 4 (this run: tier depth %d)", depth)
 	rep.Bounds["seeds"] = seeds
 	rep.Bounds["journeys"] = "from the flushed 12-row seed and from a flushed seed with seven tables (t holding 8 rows): every sequence of 5 (thorough 6) steps over {TICK, UPDATE all rows, UPDATE last row, INSERT, USE b + USE a, USE a, RESTART + USE a}"
-	rep.Bounds["events"] = "CREATE DATABASE a|B, USE a|b|A|B|nosuch (names are case-insensitive), CREATE TABLE t, CREATE TABLE u1/u2/.. (the next unused name), INSERT, UPDATE (all rows), UPDATE / DELETE of the newest row, TICK of every live store (including abandoned ones), RESTART; SHOW DATABASES and read-back are checked after every event; the read-back also probes every table name that exists only in another database (must be refused, the store left unlocked)"
+	rep.Bounds["events"] = "CREATE DATABASE a|B, USE a|b|A|B|nosuch (names are case-insensitive), CREATE TABLE t, CREATE TABLE u1/u2/.. (the next unused name), INSERT, UPDATE (all rows), UPDATE / DELETE of the newest row, TICK of every live store (including abandoned ones), RESTART (clean shutdown first), KILL (the process dies without closing anything, then restart); SHOW DATABASES and read-back are checked after every event; the read-back also probes every table name that exists only in another database (must be refused, the store left unlocked)"
 	known := env.OpenKnown()
 	explore(env, rep, 0, func(c *lib.Ctx) {
 		if worldHome == "" {
@@ -570,7 +603,7 @@ func runC17(env *lib.Env, rep *lib.Report) {
 		if seed == "journeys" || seed == "journeys-7-tables" {
 			// longer histories over a reduced alphabet of whole steps (each may be several statements): what one
 			// database goes through when it is written, flushed, left, re-entered and restarted again and again
-			macros := [][]string{{"TICK store#0"}, {"UPDATE"}, {"UPDATE last row"}, {"DELETE last row"}, {"INSERT"}, {"USE b", "USE a"}, {"USE a"}, {"RESTART", "USE a"}}
+			macros := [][]string{{"TICK store#0"}, {"UPDATE"}, {"UPDATE last row"}, {"DELETE last row"}, {"INSERT"}, {"USE b", "USE a"}, {"USE a"}, {"RESTART", "USE a"}, {"KILL", "USE a"}}
 			jsteps := 5
 			if env.Thorough() {
 				jsteps = 6
